@@ -9,6 +9,7 @@ import (
 	"fmt"
 	"reflect"
 	"sort"
+	"verif/internal/run"
 
 	"pgregory.net/rapid"
 )
@@ -138,7 +139,7 @@ func (g *gen) enumExprLib() []Case {
 		call("len", call("upper", p("s"))), call("isBig", call("len", call("keys", p("m")))), call("sum", call("abs", p("n")), call("first", p("xs")), li("1")), call("pick", call("isBig", p("a")), call("upper", p("s")), ls("no", "s")),
 	}
 	plain := []Expr{call("abs", p("n")), call("abs", p("g")), call("max", p("a"), p("b")), call("min", p("a"), li("3")), call("first", p("xs")), call("last", p("xs")), call("first", p("ss")), call("last", p("ss"))}
-	for env := 0; env < nEnvs; env++ {
+	for env := 0; env < run.Pick(1, nEnvs); env++ { // quick: environment 0
 		e := envOf(env)
 		add := func(x Expr) {
 			if _, err := eval(x, e); err != nil {
